@@ -149,6 +149,16 @@ func (ex *Exec) intrinsic(caller *frame, fn *ssa.Function, args []value, pos tok
 	case "verifRacePair":
 		ex.racePair(caller, ex.constStr(args[0], "pair name"), args[1], args[2], pos)
 		return nil, true
+	case "verifOnLockEvent":
+		f := args[0]
+		if itf, ok := f.(iface); ok {
+			f = itf.v
+		}
+		ex.lockHook = f
+		return nil, true
+	case "verifInterleave":
+		ex.runInterleaved(caller, ex.constStr(args[0], "interleave label"), args[1], args[2])
+		return nil, true
 	case "verifStop":
 		panic(pathDone{})
 	case "verifObserve":
@@ -478,6 +488,30 @@ func (ex *Exec) lockOp(p *value, op string) {
 		ex.locks[p] = ls
 		ex.lockOrder = append(ex.lockOrder, p)
 	}
+	// two-thread sequentialisation (verifInterleave): lock acquisitions and releases of the
+	// first thread are the scheduling points at which the second thread may run to completion
+	if il := ex.interleave; il != nil {
+		if il.inB {
+			// the second thread needs a lock the suspended first thread holds: this schedule
+			// is not possible (it would block until the first thread resumes)
+			if (op == "Lock" && (ls.writer || ls.readers > 0)) || (op == "RLock" && ls.writer) {
+				panic(pathKill{"interleaving infeasible: second thread blocks on a lock held by the first"})
+			}
+		} else if !il.done && (op == "Lock" || op == "RLock") {
+			ex.maybePreempt()
+		}
+	}
+	defer func() {
+		if h := ex.lockHook; h != nil && !ex.inLockHook {
+			// observation hook of the harness (ghost bookkeeping at every lock boundary)
+			ex.inLockHook = true
+			ex.call(nil, h, nil, token.NoPos)
+			ex.inLockHook = false
+		}
+		if il := ex.interleave; il != nil && !il.inB && !il.done && (op == "Unlock" || op == "RUnlock") {
+			ex.maybePreempt()
+		}
+	}()
 	switch op {
 	case "Lock":
 		if ls.writer || ls.readers > 0 {
@@ -1767,5 +1801,57 @@ func init() {
 	}
 	m["net/textproto.TrimString"] = func(ex *Exec, c *frame, fn *ssa.Function, a []value) value {
 		return ex.tc.StrConst(textproto.TrimString(ex.constStr(a[0], "TrimString input")))
+	}
+}
+
+type interleaveState struct {
+	b     value
+	done  bool
+	inB   bool
+	n     int
+	c     *frame
+	label string
+}
+
+// maybePreempt: at a scheduling point of the first thread, a symbolic choice decides whether
+// the second thread runs now (to completion).
+func (ex *Exec) maybePreempt() {
+	il := ex.interleave
+	il.n++
+	v := ex.input(fmt.Sprintf("preempt.%s.%d", il.label, il.n), BoolSort)
+	if !ex.branch(v) {
+		return
+	}
+	il.done = true
+	il.inB = true
+	f := il.b
+	if itf, ok := f.(iface); ok {
+		f = itf.v
+	}
+	ex.call(il.c, f, nil, token.NoPos)
+	il.inB = false
+}
+
+// runInterleaved executes a() with b() inserted at one symbolically chosen lock boundary of a
+// (or after a, when no boundary was chosen).
+func (ex *Exec) runInterleaved(caller *frame, label string, fa, fb value) {
+	if ex.interleave != nil {
+		panic(unsupported{"nested verifInterleave"})
+	}
+	il := &interleaveState{b: fb, c: caller, label: label}
+	ex.interleave = il
+	defer func() { ex.interleave = nil }()
+	if itf, ok := fa.(iface); ok {
+		fa = itf.v
+	}
+	ex.call(caller, fa, nil, token.NoPos)
+	if !il.done {
+		il.done, il.inB = true, true
+		f := fb
+		if itf, ok := f.(iface); ok {
+			f = itf.v
+		}
+		ex.call(caller, f, nil, token.NoPos)
+		il.inB = false
 	}
 }
